@@ -1,6 +1,7 @@
 package mon
 
 import (
+	"os"
 	"encoding/binary"
 	"encoding/json"
 	"fmt"
@@ -247,6 +248,7 @@ func (m *C14Mon) OnBlock(blk *hist.Block) []Finding {
 	}
 	finalisedConfig := 0
 	distributedNow := new(big.Int) // escrow emptied by finalisations of this block
+	allowedNow := new(big.Int)     // the validators' part of it
 	for id := range ids {
 		pp, cp := prev[id], cur[id]
 		if pp != nil && cp != nil && phase(pp) == "voting" {
@@ -338,6 +340,9 @@ func (m *C14Mon) OnBlock(blk *hist.Block) []Finding {
 		want.Sub(want, get(withdrawNow, id))
 		if to == "finalised" && from != "finalised" {
 			distributedNow.Add(distributedNow, pe)
+			// (this proposal's validators' part: the percentage its type's option record configures for its outcome)
+			part := new(big.Int).Mul(pe, big.NewInt(int64(validatorsPct(blk.Prev, cp.Type, from == "passed")*100)))
+			allowedNow.Add(allowedNow, part.Div(part, big.NewInt(10000)))
 			// distribution empties the escrow; it may not hand out more than was there
 			if ce.Sign() != 0 {
 				out = append(out, Finding{"C14", "C14/funds/escrow-left-after-finalisation", fmt.Sprintf("block %d: proposal %s finalised but %s is still in escrow", blk.H, id[:10], ce)})
@@ -367,19 +372,24 @@ func (m *C14Mon) OnBlock(blk *hist.Block) []Finding {
 			n++
 			if d := new(big.Int).Sub(amountAt(blk.Cur, "b_"+va+"_OLT"), amountAt(blk.Prev, "b_"+va+"_OLT")); d.Sign() > 0 {
 				gained.Add(gained, d)
+				if os.Getenv("DEBUG_C14") != "" {
+					fmt.Printf("DEBUG   h=%d %s +%s active=%v\n", blk.H, va, d, isActive(blk.Prev, va))
+				}
 			}
 			for _, t := range blk.Txs {
-				if t.Call.Code == 0 && t.Kind != "PROPOSAL_VOTE" && t.Kind != "ALLEGATION_VOTE" {
+				// (staking and voting transactions name the validator and pay nothing into its account)
+				if t.Call.Code == 0 && !map[string]bool{"PROPOSAL_VOTE": true, "ALLEGATION_VOTE": true, "ALLEGATION": true, "RELEASE": true, "STAKE": true, "UNSTAKE": true, "WITHDRAW": true, "WITHDRAW_REWARD": true}[t.Kind] {
 					if pj, _ := json.Marshal(Payload(t.Bytes)); strings.Contains(string(pj), va) {
 						named = true
 					}
 				}
 			}
 		}
-		// (rounded up, one unit per validator record for the division)
-		allowed := new(big.Int).Mul(distributedNow, big.NewInt(int64(share*100)))
-		allowed.Div(allowed, big.NewInt(10000))
-		allowed.Add(allowed, big.NewInt(int64(n)+1))
+		// (rounded up, a few units per proposal for the divisions)
+		allowed := new(big.Int).Add(allowedNow, big.NewInt(int64(n)+8))
+		if os.Getenv("DEBUG_C14") != "" { // triage aid
+			fmt.Printf("DEBUG h=%d distributed=%s share=%.2f records=%d gained=%s allowed=%s named=%v\n", blk.H, distributedNow, share, n, gained, allowed, named)
+		}
 		if share > 0 && !named && gained.Cmp(allowed) > 0 {
 			out = append(out, Finding{"C14", "C14/funds/validators-paid-more-than-their-share", fmt.Sprintf("block %d: proposals holding %s in escrow were finalised; the %d validator accounts together gained %s, the validators' share (%.2f %%) is %s", blk.H, distributedNow, n, gained, share, allowed)})
 		}
@@ -432,6 +442,39 @@ func first3(s []string) []string {
 		return s[:3]
 	}
 	return s
+}
+
+// validatorsPct: the validators' percentage of the fund distribution the option record in force configures
+// for a proposal type and outcome.
+func validatorsPct(s hist.State, typ int, passed bool) float64 {
+	luh := uint64(0)
+	if b, ok := s["g_proposalOptions_defaultOptions"]; ok && len(b) == 8 {
+		luh = binary.LittleEndian.Uint64(b)
+	}
+	v, ok := s["g_"+string(rune(luh))+"_proposal"]
+	if !ok {
+		return 100
+	}
+	var set map[string]json.RawMessage
+	if json.Unmarshal(v, &set) != nil {
+		return 100
+	}
+	name := map[int]string{0x20: "configUpdate", 0x21: "codeChange", 0x22: "general"}[typ]
+	var o struct {
+		P struct {
+			Validators float64 `json:"validators"`
+		} `json:"passedFundDistribution"`
+		F struct {
+			Validators float64 `json:"validators"`
+		} `json:"failedFundDistribution"`
+	}
+	if raw, ok := set[name]; !ok || json.Unmarshal(raw, &o) != nil {
+		return 100
+	}
+	if passed {
+		return o.P.Validators
+	}
+	return o.F.Validators
 }
 
 // validatorsShare: the largest validators' percentage any proposal type's fund distribution (passed or failed)
